@@ -218,7 +218,9 @@ fn give(c: &mut Copy, b: &Block, w: &crate::sim::World, rng: &mut Rng) {
 		// (never below the sixth block under the highest tip ever seen: what had six confirmations stays)
 		let d = 1 + rng.below(5) as u32;
 		let base = crate::chain::BASE_HEIGHT;
-		if b.height > base + d + 1 && b.height - d + 5 >= w.peak_height.max(c.max_told) {
+		// (nor the block of a funding transaction that already had the depth agreed for channel_ready: removing that
+		// closes the channel by design – known finding, judged on the originals in `openfork`)
+		if b.height > base + d + 1 && b.height - d + 5 >= w.peak_height.max(c.max_told) && b.height - d >= w.copy_reorg_floor {
 			let fork = w.chain.block_at(b.height - d);
 			if c.style == Style::ShallowReorgs {
 				let loc = BlockLocator::new(fork.header.block_hash(), fork.height);
